@@ -29,10 +29,11 @@ type Hints struct {
 	Insts    []*Term
 	Timeout  int
 	Fuel     int
+	InstDepth int
 }
 
 func (h *Hints) clone() *Hints {
-	n := &Hints{Reveal: map[string]bool{}, NoUnfold: h.NoUnfold, Timeout: h.Timeout, Fuel: h.Fuel}
+	n := &Hints{Reveal: map[string]bool{}, NoUnfold: h.NoUnfold, Timeout: h.Timeout, Fuel: h.Fuel, InstDepth: h.InstDepth}
 	for k := range h.Reveal {
 		n.Reveal[k] = true
 	}
